@@ -144,8 +144,24 @@ static std::string run(const std::vector<std::string> &t) {
 
     if (op == "pb") return with(o, [&](auto &rb) { long v = num(2); Elem &r = rb.push_back(mk(v)); std::string s = "v=" + std::to_string(valueOf(r)); return finish(s); });
     if (op == "pf") return with(o, [&](auto &rb) { long v = num(2); Elem &r = rb.push_front(mk(v)); std::string s = "v=" + std::to_string(valueOf(r)); return finish(s); });
-    if (op == "eb") return with(o, [&](auto &rb) { Elem &r = rb.emplace_back(mkArg(num(2))); std::string s = "v=" + std::to_string(valueOf(r)); return finish(s); });
-    if (op == "ef") return with(o, [&](auto &rb) { Elem &r = rb.emplace_front(mkArg(num(2))); std::string s = "v=" + std::to_string(valueOf(r)); return finish(s); });
+    // emplace_*(args...) with every argument shape (chosen by the value, so a case always takes the same route): no argument
+    // (value 0 = the default-constructed element), two arguments of different types, one lvalue, one rvalue
+    if (op == "eb") return with(o, [&](auto &rb) {
+        long v = num(2);
+#if !defined(ELEM_LONG)
+        Elem &r = v == 0 ? rb.emplace_back() : v % 3 == 0 ? rb.emplace_back(v - 3, 3) : v % 3 == 1 ? rb.emplace_back(v) : rb.emplace_back(mkArg(v));
+#else
+        Elem &r = rb.emplace_back(mkArg(v));
+#endif
+        std::string s = "v=" + std::to_string(valueOf(r)); return finish(s); });
+    if (op == "ef") return with(o, [&](auto &rb) {
+        long v = num(2);
+#if !defined(ELEM_LONG)
+        Elem &r = v == 0 ? rb.emplace_front() : v % 3 == 0 ? rb.emplace_front(v - 3, 3) : v % 3 == 1 ? rb.emplace_front(v) : rb.emplace_front(mkArg(v));
+#else
+        Elem &r = rb.emplace_front(mkArg(v));
+#endif
+        std::string s = "v=" + std::to_string(valueOf(r)); return finish(s); });
     // aliasing pushes: the argument refers to an element of the buffer itself (push_back(rb[i]) is valid use)
     if (op == "pbs") return with(o, [&](auto &rb) { Elem &r = rb.push_back(rb[(size_t) num(2)]); std::string s = "v=" + std::to_string(valueOf(r)); return finish(s); });
     if (op == "pfs") return with(o, [&](auto &rb) { Elem &r = rb.push_front(rb[(size_t) num(2)]); std::string s = "v=" + std::to_string(valueOf(r)); return finish(s); });
